@@ -127,6 +127,40 @@ def check_ops(ctx, name, layout, ops, base):
                     requested.update(files)
                     if [os.path.abspath(g) for g in got] != [os.path.abspath(f) for f in files]:
                         ctx.violation("Population.__iter__", "in-order", spec, got, files, spec)
+                elif op[0] == "iter_trees":
+                    # the container's own iterator (the route Population.map and a chain member's consumer take)
+                    got = [t.source for t in pop.trees]
+                    requested.update(files)
+                    if [os.path.abspath(g) for g in got] != [os.path.abspath(f) for f in files]:
+                        ctx.violation("LazyLoadingTrees.__iter__", "in-order", spec, got, files, spec)
+                elif op[0] == "iter_trees_part":
+                    # a consumer that stops early: only the items actually taken may have been read
+                    it = iter(pop.trees)
+                    got = [next(it).source for _ in range(min(op[1], nfiles))]
+                    requested.update(files[: len(got)])
+                    if [os.path.abspath(g) for g in got] != [os.path.abspath(f) for f in files[: len(got)]]:
+                        ctx.violation("LazyLoadingTrees.__iter__", "in-order", spec, got, files[: len(got)], spec)
+                elif op[0] == "map":
+                    want = [layout[os.path.relpath(f, root)] for f in files]
+                    try:
+                        got = list(pop.map(_count_nodes, max_worker=1))
+                    except (OSError, PermissionError, NotImplementedError, ImportError) as e:
+                        ctx.notes.append(f"Population.map could not run in this sandbox: {type(e).__name__}: {e}")
+                        continue
+                    requested.update(files)
+                    if got != want:
+                        ctx.violation("Population.map", "one-result-per-tree-in-order", spec, got, want, spec)
+                elif op[0] == "transform":
+                    # PopulationTransform: one result per tree, in order; a result without a source inherits its input's
+                    from swcgeom.transforms import Translate
+                    from swcgeom.transforms.population import PopulationTransform
+
+                    out = PopulationTransform(Translate(1.0, 0.0, 0.0))(pop)
+                    requested.update(files)
+                    got = [(os.path.abspath(out[k].source), out[k].number_of_nodes()) for k in range(len(out))]
+                    want = [(os.path.abspath(f), layout[os.path.relpath(f, root)]) for f in files]
+                    if got != want or out.root != pop.root:
+                        ctx.violation("PopulationTransform.__call__", "one-result-per-tree-in-order", spec, got, want, spec)
                 elif op[0] == "len":
                     len(pop)
             except Exception as e:  # an operation of the property's quantifier must not fail
@@ -230,16 +264,14 @@ def check_map(ctx, base):
         except Exception as e:
             ctx.notes.append(f"Population.map could not run in this sandbox: {type(e).__name__}: {e}")
         try:
-            from swcgeom.transforms.base import Transform
+            from swcgeom.transforms import Translate
 
-            class _T(Transform):
-                def __call__(self, x):
-                    return x.number_of_nodes()
-
-            out = PopulationTransform(_T())(pop)
-            got = [out[i] for i in range(len(out))] if not isinstance(out, list) else out
+            out = PopulationTransform(Translate(0.0, 2.0, 0.0))(pop)
+            got = [out[i].number_of_nodes() for i in range(len(out))]
+            if got != want:
+                ctx.violation("PopulationTransform.__call__", "one-result-per-tree-in-order", spec, got, want, spec)
         except Exception as e:
-            ctx.notes.append(f"PopulationTransform probe skipped: {type(e).__name__}: {e}")
+            ctx.violation("PopulationTransform.__call__", "operation-raises", spec, f"{type(e).__name__}: {e}", "no exception", spec)
     ctx.case("map", dict(files=3))
 
 
@@ -304,15 +336,22 @@ def run(ctx):
         ops_pool = [("idx", 0), ("idx", -1), ("idx", 1), ("idx", 2), ("idx", 7), ("idx", -9), ("slice", (0, 2, None)), ("slice", (1, None, None)),
                     ("slice", (None, None, -1)), ("slice", (-2, None, None)), ("iter",), ("len",)]
         depth = 2 if ctx.tier == "quick" else 3
+        # ACCESS ROUTES to a file's tree: every ordered pair (quick) / triple (thorough) of routes is a history of its own --
+        # load-once is a property of histories, and a route that fills no cache shows only when ANOTHER access follows it
+        routes = [("idx", 1), ("idx", -1), ("slice", (None, None, None)), ("slice", (None, None, -1)), ("iter",), ("iter_trees",), ("iter_trees_part", 2), ("map",), ("transform",)]
+        ops_pool = ops_pool + [("iter_trees",), ("iter_trees_part", 1), ("map",), ("transform",)]
         for name, layout in LAYOUTS.items():
             seqs = [()] + [(o,) for o in ops_pool]
+            seqs += [h for d in range(2, depth + 1) for h in itertools.product(routes, repeat=d)]
             for d in range(2, depth + 1):
                 allseq = list(itertools.product(ops_pool, repeat=d))
                 rng.shuffle(allseq)
                 seqs += allseq[: (60 if ctx.tier == "quick" else 400)]
             for ops in seqs:
                 check_ops(ctx, name, layout, ops, base)
-        size_sets = list(itertools.product(range(0, 3 if ctx.tier == "quick" else 4), repeat=2)) + [(1, 0, 2), (0, 0, 0), (2, 2, 2), (3, 0, 1)]
+        # every split of up to 4 members with 0..2 trees each (thorough: 0..3): empty members in every position, runs of empty members
+        top = 3 if ctx.tier == "quick" else 4
+        size_sets = [t for m in (2, 3, 4) for t in itertools.product(range(0, top), repeat=m)] + [(3, 0, 1), (1, 2, 0, 0, 3, 1), (0, 0, 1, 0, 2, 0)]
         for sizes in size_sets:
             check_chain(ctx, sizes, base)
         check_populations(ctx, base)
@@ -320,7 +359,8 @@ def run(ctx):
         check_filter(ctx, base)
         check_same(ctx, base)
         ctx.rule("directory layouts {flat, nested, single, empty, mixed} x operation sequences (all of length<=1, sampled length 2.." + str(depth) +
-                 ") with a Tree.from_swc call counter; chains of 2-3 populations with 0-3 members; two-directory intersection; map with 2 workers. "
+                 "; ALL histories of length 2.." + str(depth) + " over the access routes index / negative index / slice / reversed slice / Population iteration / "
+                 "container iteration (whole, partial) / Population.map in a worker process / PopulationTransform) with a Tree.from_swc call counter checked after every step; chains of 2-4 populations with 0-2 (thorough: 0-3) trees each, all splits, and two 6-member chains with runs of empty members; two-directory intersection; map with 2 workers. "
                  "filter_population with 4 predicates; check_same on equal / different directory pairs. "
                  "Non-trivial = layout with >=1 file and >=1 operation", exhaustive=False)
     finally:
